@@ -44,6 +44,41 @@
 (* that appends the tokens the code writes: boundary, header, json of the  *)
 (* initial payload, json of an `incremental` batch, closing boundary.      *)
 (*                                                                         *)
+(* A payload whose SERIALIZATION FAILS (round 3).  failAt = k > 0: the k-th  *)
+(* payload the response handler yields cannot be encoded (Response.Data is *)
+(* not valid JSON - a custom scalar marshaller wrote garbage -, or an      *)
+(* extension value's MarshalJSON errors).  What the code does with it is   *)
+(* modelled as it is (named actions, no judgement):                        *)
+(*   sse   writeJsonWithSSE panics INSIDE c.write before anything of the   *)
+(*         event reaches w (MEncodeFail; mu is released by the deferred    *)
+(*         Unlock); the deferred close() marks the connection closed       *)
+(*         (MPanicClose), the deferred flush() runs (MPFlushBegin, MPFlushEnd), then       *)
+(*         handler.Server.ServeHTTP's recover writes a bare JSON error     *)
+(*         object into the stream (MBlobBegin, MBlobEnd: token `blob`; no `complete`).   *)
+(*   mm    the payload is only encoded by aggregator.flush.  In Done's     *)
+(*         flush (handler goroutine) the panic is recovered like above:    *)
+(*         the bytes flush wrote before the part's JSON stay on the wire   *)
+(*         (FlushOutFail), then the blob, no closing boundary.  In the     *)
+(*         TICKER goroutine's flush nothing recovers it: the process dies  *)
+(*         (crashed; NoCrash - refuted for the code as it is, see          *)
+(*         MC_Stream_mmfail.cfg and known_findings.d/C12.json).            *)
+(*   MmEncodeInAdd = TRUE  the proposed repair: Add encodes the payload on *)
+(*         the handler goroutine (and so owns the bytes), a failure is a   *)
+(*         recovered panic of the request, never of the process.           *)
+(*                                                                         *)
+(* A HISTORY of requests on one handler.  req counts the requests a        *)
+(* handler (process) has served; NextRequest starts the next one when the  *)
+(* previous one is over.  Everything per-request is re-initialised; what   *)
+(* could survive is named explicitly: carry = an earlier failed            *)
+(* serialization left a residue in scratch memory the handler shares       *)
+(* between requests.  The code as it is shares nothing (SharedBuf = FALSE, *)
+(* carry is never set), so every later request is served exactly as by a   *)
+(* fresh handler - that is the property: all per-stream invariants in      *)
+(* EVERY request of a history + NoGarbage.  SharedBuf = TRUE is the        *)
+(* deviating design (event assembled in a pooled buffer that is put back   *)
+(* un-reset when encoding fails): the next event that draws the buffer is  *)
+(* garbled (token `bad`) - TLC must refute NoGarbage (MC_StreamHist_shared).*)
+(*                                                                         *)
 (* The sink is what the CLIENT sees (nothing is appended after a client    *)
 (* disconnect).  The property (C12) is stated over the sink: NoSplice,     *)
 (* PreFirst, InOrder, CompleteLast, SseComplete / MmFramed, MmOrder,       *)
@@ -59,7 +94,11 @@ CONSTANTS
   MaxTicks,    \* bound on ticker ticks per stream (keeps the exhaustive model finite)
   Disc,        \* BOOLEAN: may the client disconnect (at any instant)?
   LockWrites, StopKA, CloseAtomic,
-  KeepSink     \* TRUE in exhaustive configurations: record the sink and count ticks
+  KeepSink,    \* TRUE in exhaustive configurations: record the sink and count ticks
+  FailSet,     \* positions of the payload whose serialization fails that a request may choose; 0 = none
+  MaxReq,      \* requests served one after the other by the same handler (history length)
+  SharedBuf,   \* deviating design: serialization scratch shared between the requests of a handler
+  MmEncodeInAdd \* proposed repair: multipart encodes in Add (handler goroutine), not in flush
 
 VARIABLES
   kind, n, ka,
@@ -83,10 +122,17 @@ VARIABLES
   aInit,      \* aggregator.initialResponse # nil
   aDef,       \* aggregator.deferResponses (payload ids)
   dsig,       \* `done <- true` happened
-  tpc         \* aggregator ticker goroutine: "run" | "stopped"
+  tpc,        \* aggregator ticker goroutine: "run" | "stopped"
+  \* --- history ---
+  failAt,     \* this request: position (1-based, in production order) of the payload that cannot be encoded; 0 = none
+  req,        \* number of this request on its handler (1 = fresh handler)
+  carry,      \* residue of a failed serialization in scratch memory shared between requests (SharedBuf only)
+  crashed     \* the server process died (panic on a goroutine nobody recovers)
 
-vars == <<kind, n, ka, sink, cancelled, disc, mpc, got, mtok, mu, acc, dirty, kpc, tick, nticks,
-          kastop, fin, uaf, aInit, aDef, dsig, tpc>>
+rvars == <<kind, n, ka, sink, cancelled, disc, mpc, got, mtok, mu, acc, dirty, kpc, tick, nticks,
+           kastop, fin, uaf, aInit, aDef, dsig, tpc>>
+hvars == <<failAt, req, carry, crashed>>
+vars == <<rvars, hvars>>
 ssevars == <<mtok, mu, acc, dirty, kpc, kastop, fin, uaf>>
 mmvars == <<aInit, aDef, dsig, tpc>>
 
@@ -97,8 +143,12 @@ STok(k, id) == [k |-> k, id |-> id]
 Emit(s) == IF KeepSink /\ ~disc THEN sink \o s ELSE sink
 Count(x) == IF KeepSink THEN x + 1 ELSE x
 
+\* positions a request of kind k with nn payloads can fail at (mm: position 1 is the initial payload)
+FailOK(k, nn, ff) == ff = 0 \/ ff <= (IF k = "sse" THEN nn ELSE nn + 1)
+
 InitWith(k, nn, kk) ==
   /\ kind = k /\ n = nn /\ ka = kk
+  /\ req = 1 /\ carry = FALSE /\ crashed = FALSE
   /\ sink = <<>> /\ cancelled = FALSE /\ disc = FALSE
   /\ mpc = (IF k = "sse" THEN "w0" ELSE "recv") /\ got = 0
   /\ mtok = STok("pre", 0) /\ mu = "free" /\ acc = {}
@@ -106,14 +156,18 @@ InitWith(k, nn, kk) ==
   /\ kpc = "off" /\ tick = FALSE /\ nticks = 0 /\ kastop = FALSE /\ fin = "no" /\ uaf = FALSE
   /\ aInit = FALSE /\ aDef = <<>> /\ dsig = FALSE /\ tpc = (IF k = "mm" THEN "run" ELSE "stopped")
 
-Init == \E k \in Kinds, nn \in MinN..MaxN, kk \in KASet :
+Init == \E k \in Kinds, nn \in MinN..MaxN, kk \in KASet, ff \in FailSet :
           /\ (k = "mm" => kk = FALSE)
+          /\ FailOK(k, nn, ff) /\ failAt = ff
           /\ InitWith(k, nn, kk)
 
 \* ------------------------------------------------------------------ SSE --
+\* the event main is about to write is the one whose payload cannot be encoded
+Failing == mtok.k \in {"next", "bad"} /\ mtok.id = failAt
+
 \* main: one w.Write call begins
 MWriteBegin ==
-  /\ kind = "sse" /\ mpc = "w0"
+  /\ kind = "sse" /\ mpc = "w0" /\ ~Failing
   /\ LockWrites => mu = "free"
   /\ mu' = (IF LockWrites THEN "main" ELSE mu)
   /\ acc' = acc \cup {"main"}
@@ -121,14 +175,14 @@ MWriteBegin ==
   /\ kastop' = (IF mtok.k = "complete" /\ CloseAtomic THEN TRUE ELSE kastop)
   /\ sink' = Emit(<<Seg("B", mtok)>>)
   /\ mpc' = "w1"
-  /\ UNCHANGED <<kind, n, ka, cancelled, disc, got, mtok, kpc, tick, nticks, fin, uaf, mmvars>>
+  /\ UNCHANGED <<hvars, kind, n, ka, cancelled, disc, got, mtok, kpc, tick, nticks, fin, uaf, mmvars>>
 
 MWriteEnd ==
   /\ kind = "sse" /\ mpc = "w1"
   /\ acc' = acc \ {"main"}
   /\ sink' = Emit(<<Seg("E", mtok)>>)
   /\ mpc' = "f0"
-  /\ UNCHANGED <<kind, n, ka, cancelled, disc, got, mtok, mu, dirty, kpc, tick, nticks, kastop, fin, uaf, mmvars>>
+  /\ UNCHANGED <<hvars, kind, n, ka, cancelled, disc, got, mtok, mu, dirty, kpc, tick, nticks, kastop, fin, uaf, mmvars>>
 
 \* c.flush(): mu.Lock; f.Flush(); mu.Unlock  (in the repaired design mu is already held)
 MFlushBegin ==
@@ -138,7 +192,7 @@ MFlushBegin ==
   /\ acc' = acc \cup {"main"}
   /\ dirty' = [dirty EXCEPT !["ka"] = (@ \/ kpc = "w1")]
   /\ mpc' = "f1"
-  /\ UNCHANGED <<kind, n, ka, sink, cancelled, disc, got, mtok, kpc, tick, nticks, kastop, fin, uaf, mmvars>>
+  /\ UNCHANGED <<hvars, kind, n, ka, sink, cancelled, disc, got, mtok, kpc, tick, nticks, kastop, fin, uaf, mmvars>>
 
 MFlushEnd ==
   /\ kind = "sse" /\ mpc = "f1"
@@ -146,29 +200,33 @@ MFlushEnd ==
   /\ mu' = "free"
   /\ mpc' = (CASE mtok.k = "pre" -> "startka" [] mtok.k = "next" -> "reset"
                [] OTHER -> (IF StopKA THEN "close" ELSE "returned"))
-  /\ UNCHANGED <<kind, n, ka, sink, cancelled, disc, got, mtok, dirty, kpc, tick, nticks, kastop, fin, uaf, mmvars>>
+  /\ UNCHANGED <<hvars, kind, n, ka, sink, cancelled, disc, got, mtok, dirty, kpc, tick, nticks, kastop, fin, uaf, mmvars>>
 
 \* time.NewTicker + go c.keepAlive(w) when KeepAlivePingInterval > 0
 MStartKA ==
   /\ kind = "sse" /\ mpc = "startka"
   /\ kpc' = (IF ka THEN "idle" ELSE "off")
   /\ mpc' = "recv"
-  /\ UNCHANGED <<kind, n, ka, sink, cancelled, disc, got, mtok, mu, acc, dirty, tick, nticks, kastop, fin, uaf, mmvars>>
+  /\ UNCHANGED <<hvars, kind, n, ka, sink, cancelled, disc, got, mtok, mu, acc, dirty, tick, nticks, kastop, fin, uaf, mmvars>>
 
 \* responses(ctx) returns the next payload (the source decides when)
 MRecv ==
   /\ kind = "sse" /\ mpc = "recv" /\ got < n
   /\ got' = got + 1
-  /\ mtok' = STok("next", got + 1)
+  \* SharedBuf (deviating design): the event may be assembled in the scratch buffer an earlier failed
+  \* serialization left its partial event in - it then goes out garbled (`bad`), and the residue is gone
+  /\ \E g \in (IF SharedBuf /\ carry THEN BOOLEAN ELSE {FALSE}) :
+       /\ mtok' = STok(IF g THEN "bad" ELSE "next", got + 1)
+       /\ carry' = (carry /\ ~g)
   /\ mpc' = "w0"
-  /\ UNCHANGED <<kind, n, ka, sink, cancelled, disc, mu, acc, dirty, kpc, tick, nticks, kastop, fin, uaf, mmvars>>
+  /\ UNCHANGED <<failAt, req, crashed, kind, n, ka, sink, cancelled, disc, mu, acc, dirty, kpc, tick, nticks, kastop, fin, uaf, mmvars>>
 
 \* responses(ctx) returns nil: the source is exhausted, or its context is done
 MRecvNil ==
   /\ kind = "sse" /\ mpc = "recv" /\ (got = n \/ cancelled)
   /\ mtok' = STok("complete", 0)
   /\ mpc' = "w0"
-  /\ UNCHANGED <<kind, n, ka, sink, cancelled, disc, got, mu, acc, dirty, kpc, tick, nticks, kastop, fin, uaf, mmvars>>
+  /\ UNCHANGED <<hvars, kind, n, ka, sink, cancelled, disc, got, mu, acc, dirty, kpc, tick, nticks, kastop, fin, uaf, mmvars>>
 
 \* resetTicker: under mu; a pending tick is dropped (Go >= 1.23 timers)
 MReset ==
@@ -176,7 +234,7 @@ MReset ==
   /\ ka => mu = "free"
   /\ tick' = (IF ka THEN FALSE ELSE tick)
   /\ mpc' = "recv"
-  /\ UNCHANGED <<kind, n, ka, sink, cancelled, disc, got, mtok, mu, acc, dirty, kpc, nticks, kastop, fin, uaf, mmvars>>
+  /\ UNCHANGED <<hvars, kind, n, ka, sink, cancelled, disc, got, mtok, mu, acc, dirty, kpc, nticks, kastop, fin, uaf, mmvars>>
 
 \* repaired designs: the deferred close(): mu.Lock; closed = true; ticker.Stop; mu.Unlock; then Do returns
 MClose ==
@@ -184,14 +242,69 @@ MClose ==
   /\ mu = "free"
   /\ kastop' = TRUE
   /\ mpc' = "returned"
-  /\ UNCHANGED <<kind, n, ka, sink, cancelled, disc, got, mtok, mu, acc, dirty, kpc, tick, nticks, fin, uaf, mmvars>>
+  /\ UNCHANGED <<hvars, kind, n, ka, sink, cancelled, disc, got, mtok, mu, acc, dirty, kpc, tick, nticks, fin, uaf, mmvars>>
+
+\* ---- a payload that cannot be encoded (sse) ----
+\* c.write: mu.Lock; fn() = writeJsonWithSSE: json.Marshal fails -> panic BEFORE anything of the
+\* event is written to w; the deferred mu.Unlock runs.  One step: mu is taken and released.
+\* SharedBuf: the partial event stays behind in the shared scratch buffer.
+MEncodeFail ==
+  /\ kind = "sse" /\ mpc = "w0" /\ Failing
+  /\ LockWrites => mu = "free"
+  /\ carry' = (carry \/ SharedBuf)
+  /\ mtok' = STok("blob", 0)
+  /\ mpc' = (IF StopKA THEN "pclose" ELSE "pf0")
+  /\ UNCHANGED <<failAt, req, crashed, kind, n, ka, sink, cancelled, disc, got, mu, acc, dirty, kpc, tick, nticks, kastop, fin, uaf, mmvars>>
+
+\* the panic unwinds Do: deferred close() (repaired designs): mu.Lock; closed = true; ticker.Stop; mu.Unlock
+MPanicClose ==
+  /\ kind = "sse" /\ mpc = "pclose"
+  /\ mu = "free"
+  /\ kastop' = TRUE
+  /\ mpc' = "pf0"
+  /\ UNCHANGED <<hvars, kind, n, ka, sink, cancelled, disc, got, mtok, mu, acc, dirty, kpc, tick, nticks, fin, uaf, mmvars>>
+
+\* ... then the deferred c.flush(): mu.Lock; f.Flush(); mu.Unlock
+MPFlushBegin ==
+  /\ kind = "sse" /\ mpc = "pf0"
+  /\ mu = "free"
+  /\ mu' = "main"
+  /\ acc' = acc \cup {"main"}
+  /\ dirty' = [dirty EXCEPT !["ka"] = (@ \/ kpc = "w1")]
+  /\ mpc' = "pf1"
+  /\ UNCHANGED <<hvars, kind, n, ka, sink, cancelled, disc, got, mtok, kpc, tick, nticks, kastop, fin, uaf, mmvars>>
+
+MPFlushEnd ==
+  /\ kind = "sse" /\ mpc = "pf1"
+  /\ acc' = acc \ {"main"}
+  /\ mu' = "free"
+  /\ mpc' = "rec"
+  /\ UNCHANGED <<hvars, kind, n, ka, sink, cancelled, disc, got, mtok, dirty, kpc, tick, nticks, kastop, fin, uaf, mmvars>>
+
+\* handler.Server.ServeHTTP recovers the panic: w.WriteHeader(422) (too late: ignored), w.Write(error JSON) -
+\* one Write on w, outside every lock of the transport (both kinds)
+MBlobBegin ==
+  /\ mpc = "rec"
+  /\ acc' = acc \cup {"main"}
+  /\ dirty' = [dirty EXCEPT !["main"] = (acc # {}), !["ka"] = (@ \/ kpc = "w1")]
+  /\ uaf' = (uaf \/ fin # "no")
+  /\ sink' = (IF kind = "sse" THEN Emit(<<Seg("B", STok("blob", 0))>>) ELSE sink)
+  /\ mpc' = "bw1"
+  /\ UNCHANGED <<hvars, kind, n, ka, cancelled, disc, got, mtok, mu, kpc, tick, nticks, kastop, fin, mmvars>>
+
+MBlobEnd ==
+  /\ mpc = "bw1"
+  /\ acc' = acc \ {"main"}
+  /\ sink' = Emit(<<IF kind = "sse" THEN Seg("E", STok("blob", 0)) ELSE Tk("T", "blob", 0, <<>>, "-")>>)
+  /\ mpc' = "returned"
+  /\ UNCHANGED <<hvars, kind, n, ka, cancelled, disc, got, mtok, mu, dirty, kpc, tick, nticks, kastop, fin, uaf, mmvars>>
 
 \* the keep-alive ticker fires (environment: any timing)
 Tick ==
   /\ kind = "sse" /\ kpc \in {"idle", "w1", "f0", "f1"}
   /\ ~tick /\ nticks < MaxTicks
   /\ tick' = TRUE /\ nticks' = Count(nticks)
-  /\ UNCHANGED <<kind, n, ka, sink, cancelled, disc, mpc, got, ssevars, mmvars>>
+  /\ UNCHANGED <<hvars, kind, n, ka, sink, cancelled, disc, mpc, got, ssevars, mmvars>>
 
 KPingBegin ==
   /\ kind = "sse" /\ kpc = "idle" /\ tick
@@ -204,14 +317,14 @@ KPingBegin ==
   /\ uaf' = (uaf \/ fin # "no")
   /\ sink' = Emit(<<Seg("B", STok("ping", 0))>>)
   /\ kpc' = "w1"
-  /\ UNCHANGED <<kind, n, ka, cancelled, disc, mpc, got, mtok, nticks, kastop, fin, mmvars>>
+  /\ UNCHANGED <<hvars, kind, n, ka, cancelled, disc, mpc, got, mtok, nticks, kastop, fin, mmvars>>
 
 KPingEnd ==
   /\ kind = "sse" /\ kpc = "w1"
   /\ acc' = acc \ {"ka"}
   /\ sink' = Emit(<<Seg("E", STok("ping", 0))>>)
   /\ kpc' = "f0"
-  /\ UNCHANGED <<kind, n, ka, cancelled, disc, mpc, got, mtok, mu, dirty, tick, nticks, kastop, fin, uaf, mmvars>>
+  /\ UNCHANGED <<hvars, kind, n, ka, cancelled, disc, mpc, got, mtok, mu, dirty, tick, nticks, kastop, fin, uaf, mmvars>>
 
 KFlushBegin ==
   /\ kind = "sse" /\ kpc = "f0"
@@ -221,14 +334,14 @@ KFlushBegin ==
   /\ dirty' = [dirty EXCEPT !["main"] = (@ \/ mpc = "w1")]
   /\ uaf' = (uaf \/ fin # "no")
   /\ kpc' = "f1"
-  /\ UNCHANGED <<kind, n, ka, sink, cancelled, disc, mpc, got, mtok, tick, nticks, kastop, fin, mmvars>>
+  /\ UNCHANGED <<hvars, kind, n, ka, sink, cancelled, disc, mpc, got, mtok, tick, nticks, kastop, fin, mmvars>>
 
 KFlushEnd ==
   /\ kind = "sse" /\ kpc = "f1"
   /\ acc' = acc \ {"ka"}
   /\ mu' = "free"
   /\ kpc' = "idle"
-  /\ UNCHANGED <<kind, n, ka, sink, cancelled, disc, mpc, got, mtok, dirty, tick, nticks, kastop, fin, uaf, mmvars>>
+  /\ UNCHANGED <<hvars, kind, n, ka, sink, cancelled, disc, mpc, got, mtok, dirty, tick, nticks, kastop, fin, uaf, mmvars>>
 
 \* keepAlive returns: <-ctx.Done() (select may also take a pending tick:
 \* KPingBegin stays enabled), or - repaired - the connection is closed
@@ -236,32 +349,32 @@ KStop ==
   /\ kind = "sse" /\ kpc = "idle"
   /\ cancelled \/ (StopKA /\ kastop)
   /\ kpc' = "stopped"
-  /\ UNCHANGED <<kind, n, ka, sink, cancelled, disc, mpc, got, mtok, mu, acc, dirty, tick, nticks, kastop, fin, uaf, mmvars>>
+  /\ UNCHANGED <<hvars, kind, n, ka, sink, cancelled, disc, mpc, got, mtok, mu, acc, dirty, tick, nticks, kastop, fin, uaf, mmvars>>
 
 \* net/http: the handler returned -> w.cancelCtx() -> w.finishRequest()
 ServerCancel ==
   /\ mpc = "returned" /\ ~cancelled
   /\ cancelled' = TRUE
-  /\ UNCHANGED <<kind, n, ka, sink, disc, mpc, got, tick, nticks, ssevars, mmvars>>
+  /\ UNCHANGED <<hvars, kind, n, ka, sink, disc, mpc, got, tick, nticks, ssevars, mmvars>>
 
 FinBegin ==
   /\ mpc = "returned" /\ cancelled /\ fin = "no"
   /\ fin' = "busy"
   /\ acc' = acc \cup {"srv"}
   /\ dirty' = [dirty EXCEPT !["ka"] = (@ \/ kpc = "w1")]
-  /\ UNCHANGED <<kind, n, ka, sink, cancelled, disc, mpc, got, mtok, mu, kpc, tick, nticks, kastop, uaf, mmvars>>
+  /\ UNCHANGED <<hvars, kind, n, ka, sink, cancelled, disc, mpc, got, mtok, mu, kpc, tick, nticks, kastop, uaf, mmvars>>
 
 FinEnd ==
   /\ fin = "busy"
   /\ fin' = "yes"
   /\ acc' = acc \ {"srv"}
-  /\ UNCHANGED <<kind, n, ka, sink, cancelled, disc, mpc, got, mtok, mu, dirty, kpc, tick, nticks, kastop, uaf, mmvars>>
+  /\ UNCHANGED <<hvars, kind, n, ka, sink, cancelled, disc, mpc, got, mtok, mu, dirty, kpc, tick, nticks, kastop, uaf, mmvars>>
 
 \* the client closes the connection; net/http's background read cancels the request context
 Disconnect ==
   /\ Disc /\ ~disc /\ mpc # "returned"
   /\ disc' = TRUE /\ cancelled' = TRUE
-  /\ UNCHANGED <<kind, n, ka, sink, mpc, got, tick, nticks, ssevars, mmvars>>
+  /\ UNCHANGED <<hvars, kind, n, ka, sink, mpc, got, tick, nticks, ssevars, mmvars>>
 
 \* ------------------------------------------------------ multipart/mixed --
 HN(id) == IF id < n THEN "t" ELSE "f"       \* payload 0 = initial, 1..n incremental; the last one says hasNext:false
@@ -280,61 +393,104 @@ FlushOut ==
            hn == IF aDef # <<>> THEN HN(aDef[Len(aDef)]) ELSE HN(0)
        IN p1 \o p2 \o <<IF hn = "t" THEN T0("bnd") ELSE T0("close")>>
 
+\* the code as it is encodes a payload only here, in flush: is the payload that cannot be encoded pending?
+\* (mm: position 1 is the initial payload, payload id i has position i + 1)
+FailIn == /\ ~MmEncodeInAdd /\ failAt > 0
+          /\ \/ (aInit /\ failAt = 1)
+             \/ \E i \in 1..Len(aDef) : aDef[i] + 1 = failAt
+\* ... then flush panics in writeJson / writeIncrementalJson: what it wrote before that part's JSON stays
+FlushOutFail ==
+  IF aInit /\ failAt = 1 THEN <<T0("bnd"), T0("hdr")>>
+  ELSE (IF aInit THEN <<T0("bnd"), T0("hdr"), Tk("T", "init", 0, <<0>>, HN(0)), T0("bnd")>> ELSE <<>>) \o <<T0("hdr")>>
+FlushEmit == IF FailIn THEN FlushOutFail ELSE FlushOut
+
 DoFlush ==
-  /\ sink' = Emit(FlushOut)
-  /\ aInit' = FALSE /\ aDef' = <<>>
+  /\ sink' = Emit(FlushEmit)
+  /\ IF FailIn
+     THEN aInit' = (aInit /\ failAt = 1) /\ aDef' = aDef   \* `a.initialResponse = nil` / `a.deferResponses = nil` come after the write
+     ELSE aInit' = FALSE /\ aDef' = <<>>
 
 \* responses(ctx) returned a payload; a.Add(resp, initial) under a.mu
 MMRecvAdd ==
   /\ kind = "mm" /\ mpc = "recv" /\ got < n + 1
   /\ got' = got + 1
-  /\ IF got = 0 THEN aInit' = TRUE /\ aDef' = aDef
-                ELSE aDef' = Append(aDef, got) /\ aInit' = aInit
-  /\ UNCHANGED <<kind, n, ka, sink, cancelled, disc, mpc, tick, nticks, ssevars, dsig, tpc>>
+  /\ IF MmEncodeInAdd /\ got + 1 = failAt
+     THEN \* proposed repair: Add encodes - and panics - on the handler goroutine; the deferred Done runs
+          /\ mpc' = "pdsig" /\ UNCHANGED <<aInit, aDef>>
+     ELSE /\ mpc' = mpc
+          /\ IF got = 0 THEN aInit' = TRUE /\ aDef' = aDef
+                        ELSE aDef' = Append(aDef, got) /\ aInit' = aInit
+  /\ UNCHANGED <<hvars, kind, n, ka, sink, cancelled, disc, tick, nticks, ssevars, dsig, tpc>>
 
 MMRecvNil ==
   /\ kind = "mm" /\ mpc = "recv" /\ (got = n + 1 \/ cancelled)
   /\ mpc' = "dsig"
-  /\ UNCHANGED <<kind, n, ka, sink, cancelled, disc, got, tick, nticks, ssevars, mmvars>>
+  /\ UNCHANGED <<hvars, kind, n, ka, sink, cancelled, disc, got, tick, nticks, ssevars, mmvars>>
 
 \* a.Done, first half: a.done <- true (buffered, never blocks)
 MMDoneSig ==
-  /\ kind = "mm" /\ mpc = "dsig"
-  /\ dsig' = TRUE /\ mpc' = "dflush"
-  /\ UNCHANGED <<kind, n, ka, sink, cancelled, disc, got, tick, nticks, ssevars, aInit, aDef, tpc>>
+  /\ kind = "mm" /\ mpc \in {"dsig", "pdsig"}
+  /\ dsig' = TRUE /\ mpc' = (IF mpc = "dsig" THEN "dflush" ELSE "pdflush")
+  /\ UNCHANGED <<hvars, kind, n, ka, sink, cancelled, disc, got, tick, nticks, ssevars, aInit, aDef, tpc>>
 
 \* a.Done, second half: a.flush(w); then the handler returns
+\* (a panic of this flush - the payload that cannot be encoded is pending - unwinds the handler
+\* goroutine and is recovered by handler.Server: MBlobBegin, MBlobEnd)
 MMDoneFlush ==
-  /\ kind = "mm" /\ mpc = "dflush"
+  /\ kind = "mm" /\ mpc \in {"dflush", "pdflush"}
   /\ DoFlush
-  /\ mpc' = "returned"
-  /\ UNCHANGED <<kind, n, ka, cancelled, disc, got, tick, nticks, ssevars, dsig, tpc>>
+  /\ mpc' = (IF FailIn \/ mpc = "pdflush" THEN "rec" ELSE "returned")
+  /\ UNCHANGED <<hvars, kind, n, ka, cancelled, disc, got, tick, nticks, ssevars, dsig, tpc>>
 
 MMTick ==
   /\ kind = "mm" /\ tpc = "run" /\ ~tick /\ nticks < MaxTicks
   /\ tick' = TRUE /\ nticks' = Count(nticks)
-  /\ UNCHANGED <<kind, n, ka, sink, cancelled, disc, mpc, got, ssevars, mmvars>>
+  /\ UNCHANGED <<hvars, kind, n, ka, sink, cancelled, disc, mpc, got, ssevars, mmvars>>
 
 \* ticker goroutine: case <-ticker.C: a.flush(w)
+\* (a panic of this flush is on the aggregator's own goroutine: nothing recovers it, the process dies)
 MMFlushTick ==
   /\ kind = "mm" /\ tpc = "run" /\ tick
   /\ tick' = FALSE
   /\ DoFlush
-  /\ UNCHANGED <<kind, n, ka, cancelled, disc, mpc, got, nticks, ssevars, dsig, tpc>>
+  /\ crashed' = (crashed \/ FailIn)
+  /\ UNCHANGED <<failAt, req, carry, kind, n, ka, cancelled, disc, mpc, got, nticks, ssevars, dsig, tpc>>
 
 \* ticker goroutine: case <-a.done: return
 MMTickerStop ==
   /\ kind = "mm" /\ tpc = "run" /\ dsig
   /\ tpc' = "stopped"
-  /\ UNCHANGED <<kind, n, ka, sink, cancelled, disc, mpc, got, tick, nticks, ssevars, aInit, aDef, dsig>>
+  /\ UNCHANGED <<hvars, kind, n, ka, sink, cancelled, disc, mpc, got, tick, nticks, ssevars, aInit, aDef, dsig>>
+
+\* -------------------------------------------------------------------------
+\* ------------------------------------------------ the next request ------
+\* The previous request is over (handler returned, net/http finished it, the helper goroutines have
+\* ended): the SAME handler serves the next one.  Everything per-request starts afresh; `carry` is
+\* what the handler keeps (nothing, unless SharedBuf).
+NextRequest ==
+  /\ req < MaxReq /\ ~crashed
+  /\ mpc = "returned" /\ fin = "yes" /\ kpc \in {"off", "stopped"} /\ tpc = "stopped"
+  /\ req' = req + 1 /\ UNCHANGED <<carry, crashed>>
+  /\ \E k \in Kinds, nn \in MinN..MaxN, kk \in KASet, ff \in FailSet :
+       /\ (k = "mm" => kk = FALSE) /\ FailOK(k, nn, ff)
+       /\ kind' = k /\ n' = nn /\ ka' = kk /\ failAt' = ff
+       /\ mpc' = (IF k = "sse" THEN "w0" ELSE "recv")
+       /\ tpc' = (IF k = "mm" THEN "run" ELSE "stopped")
+  /\ sink' = <<>> /\ cancelled' = FALSE /\ disc' = FALSE /\ got' = 0
+  /\ mtok' = STok("pre", 0) /\ mu' = "free" /\ acc' = {}
+  /\ dirty' = [p \in {"main", "ka"} |-> FALSE]
+  /\ kpc' = "off" /\ tick' = FALSE /\ nticks' = 0 /\ kastop' = FALSE /\ fin' = "no" /\ uaf' = FALSE
+  /\ aInit' = FALSE /\ aDef' = <<>> /\ dsig' = FALSE
 
 \* -------------------------------------------------------------------------
 SseNext ==
   \/ MWriteBegin \/ MWriteEnd \/ MFlushBegin \/ MFlushEnd \/ MStartKA \/ MRecv \/ MRecvNil \/ MReset \/ MClose
+  \/ MEncodeFail \/ MPanicClose \/ MPFlushBegin \/ MPFlushEnd
   \/ Tick \/ KPingBegin \/ KPingEnd \/ KFlushBegin \/ KFlushEnd \/ KStop
 MmNext ==
   \/ MMRecvAdd \/ MMRecvNil \/ MMDoneSig \/ MMDoneFlush \/ MMTick \/ MMFlushTick \/ MMTickerStop
-Next == SseNext \/ MmNext \/ ServerCancel \/ FinBegin \/ FinEnd \/ Disconnect
+\* a dead process takes no steps
+Next == ~crashed /\ (SseNext \/ MmNext \/ MBlobBegin \/ MBlobEnd \/ ServerCancel \/ FinBegin \/ FinEnd \/ Disconnect \/ NextRequest)
 
 \* gqlgen's and net/http's own steps are fair, and so is the payload source
 \* (it yields its next payload or ends; it ends promptly once its context is
@@ -342,6 +498,8 @@ Next == SseNext \/ MmNext \/ ServerCancel \/ FinBegin \/ FinEnd \/ Disconnect
 Fairness ==
   /\ WF_vars(MWriteBegin) /\ WF_vars(MWriteEnd) /\ WF_vars(MFlushBegin) /\ WF_vars(MFlushEnd)
   /\ WF_vars(MStartKA) /\ WF_vars(MRecv) /\ WF_vars(MRecvNil) /\ WF_vars(MReset) /\ WF_vars(MClose)
+  /\ WF_vars(MEncodeFail) /\ WF_vars(MPanicClose) /\ WF_vars(MPFlushBegin) /\ WF_vars(MPFlushEnd)
+  /\ WF_vars(MBlobBegin) /\ WF_vars(MBlobEnd)
   /\ WF_vars(KPingBegin) /\ WF_vars(KPingEnd) /\ WF_vars(KFlushBegin) /\ WF_vars(KFlushEnd) /\ WF_vars(KStop)
   /\ WF_vars(MMRecvAdd) /\ WF_vars(MMRecvNil) /\ WF_vars(MMDoneSig) /\ WF_vars(MMDoneFlush)
   /\ WF_vars(MMFlushTick) /\ WF_vars(MMTickerStop)
@@ -352,7 +510,9 @@ Spec == Init /\ [][Next]_vars /\ Fairness
 \* ------------------------------------------------------------ properties --
 TypeOK ==
   /\ kind \in {"sse", "mm"} /\ n \in 0..MaxN /\ ka \in BOOLEAN
-  /\ mpc \in {"w0", "w1", "f0", "f1", "startka", "recv", "reset", "close", "dsig", "dflush", "returned"}
+  /\ mpc \in {"w0", "w1", "f0", "f1", "startka", "recv", "reset", "close", "dsig", "dflush", "returned",
+             "pclose", "pf0", "pf1", "rec", "bw1", "pdsig", "pdflush"}
+  /\ failAt \in 0..(MaxN + 1) /\ req \in 1..MaxReq /\ carry \in BOOLEAN /\ crashed \in BOOLEAN
   /\ got \in 0..(n + 1)
   /\ mu \in {"free", "main", "ka"} /\ acc \subseteq {"main", "ka", "srv"}
   /\ kpc \in {"off", "idle", "w1", "f0", "f1", "stopped"}
@@ -382,9 +542,22 @@ CompleteLast ==
                      /\ IsE(sink[i], "complete") => i = Len(sink)
 \* a stream the client did not abandon is complete
 SseComplete ==
-  (kind = "sse" /\ mpc = "returned" /\ ~disc) =>
+  (kind = "sse" /\ mpc = "returned" /\ ~disc /\ failAt = 0) =>
      /\ Len(sink) >= 2 /\ IsE(sink[Len(sink)], "complete")
      /\ Len(Nexts) = n
+\* the stream of a request whose failAt-th payload cannot be encoded, as the code serves it today: every
+\* earlier payload, then the recovered panic's bare error object; no `complete`
+SseFailed ==
+  (kind = "sse" /\ mpc = "returned" /\ ~disc /\ failAt > 0) =>
+     /\ Len(sink) >= 2 /\ IsE(sink[Len(sink)], "blob")
+     /\ Len(Nexts) = failAt - 1
+     /\ \A i \in 1..Len(sink) : sink[i].k # "complete"
+\* THE HISTORY PROPERTY: no request - in particular none that follows a failed one on the same handler -
+\* ever carries an event assembled from anything but its own payload (with all the per-stream
+\* invariants holding in every request of the history this is "served exactly as by a fresh handler")
+NoGarbage == \A i \in 1..Len(sink) : sink[i].k # "bad"
+\* a payload that cannot be encoded fails its request, never the process
+NoCrash == ~crashed
 PingsOnlyIfConfigured == (kind = "sse" /\ ~ka) => \A i \in 1..Len(sink) : sink[i].k # "ping"
 
 \* multipart: the token automaton  ( bnd hdr json )+ with bnd / close between and at the end
@@ -398,6 +571,7 @@ MmRun(s, i, st) ==
                  MmRun(s, i + 1, IF x.hn = "t" THEN "s3t" ELSE "s3f")
          [] st = "s3t" /\ x.k = "bnd" -> MmRun(s, i + 1, "s1")        \* hasNext:true is never the last part
          [] st = "s3f" /\ x.k = "close" -> MmRun(s, i + 1, "s4")      \* hasNext:false only in the last part
+         [] st \in {"s0", "s1", "s2"} /\ x.k = "blob" /\ failAt > 0 -> MmRun(s, i + 1, "s5")  \* recovered encode failure ends the body
          [] OTHER -> "err"                                          \* in particular anything after the closing boundary
 MmState == MmRun(sink, 1, "s0")
 MmFramed == kind = "mm" => MmState # "err"
@@ -406,7 +580,13 @@ Ids(s, i) == IF i > Len(s) THEN <<>> ELSE (IF s[i].k \in {"init", "incr"} THEN s
 MmOrder == kind = "mm" => LET d == Ids(sink, 1) IN \A j \in 1..Len(d) : d[j] = j - 1
 MmNoEmpty == kind = "mm" => \A i \in 1..Len(sink) : sink[i].k = "incr" => sink[i].ids # <<>>
 MmComplete ==
-  (kind = "mm" /\ mpc = "returned" /\ ~disc) => (MmState = "s4" /\ Len(Ids(sink, 1)) = n + 1)
+  (kind = "mm" /\ mpc = "returned" /\ ~disc /\ failAt = 0) => (MmState = "s4" /\ Len(Ids(sink, 1)) = n + 1)
+\* a request with a payload that cannot be encoded: the parts flushed before it are intact and in order, the
+\* payload itself (and what shared its flush) never arrives, the body ends with the bare error object
+MmFailed ==
+  (kind = "mm" /\ mpc = "returned" /\ ~disc /\ failAt > 0) =>
+     /\ MmState = "s5"
+     /\ \A j \in 1..Len(Ids(sink, 1)) : Ids(sink, 1)[j] + 1 < failAt
 
 \* liveness: the handler returns; the helper goroutines end; net/http finishes the request
 Termination == <>(mpc = "returned")
